@@ -475,3 +475,84 @@ def rule_get_ast_duck_typed(check, rule):
         check.holds(rule, site_of(fi, fi.node), 'get_ast accepts anything that exposes __code__', key=key)
     else:
         check.inconclusive(rule, site_of(fi, fi.node), 'get_ast no longer reads __code__', key=key)
+
+
+def rule_subject_search(check, rule):
+    """C06.R4c: which object forged_signature examines.  (a) The first search asks get_introspectable to stop at an autoforwards hint only
+    when discovery is on (`af_hint=auto`): with auto=False the hint is not consulted, so stopping at it would hide what lies under
+    the object's __call__.  (b) When the hint was consulted and gave nothing, discovery goes on with the object found *without*
+    regard to hints (`get_introspectable(subject, af_hint=False)`): handing the hinted object itself to autoforwards() asks the same
+    hint again and falls back, although the function underneath may forward."""
+    repo = check.repo
+    fi = repo.func('_specifiers:forged_signature')
+    check.analysed(fi)
+    gi = repo.func('_util:get_introspectable', required=False)
+    if gi is None:
+        raise Inconclusive('_util.get_introspectable vanished')
+    it = Interp(repo, Policy(try_forks=True))
+    paths = it.run(fi)
+    check.absorb(it)
+    pos = fi.params()[0] + fi.params()[2]
+    objp = ('P', fi.params()[0][0])
+    autop = ('P', 'auto') if 'auto' in pos else None
+    n = 0
+    seen = set()
+    for p in paths:
+        searches = [e for e in p.effects if e.kind == 'call' and e.op == gi.key]
+        if not searches:
+            continue
+        first = searches[0]
+        b = _bind_call(gi, first)
+        key = 'forged_signature|first-search'
+        if key not in seen:
+            seen.add(key)
+            n += 1
+            st = site_of(fi, first.node)
+            if b is None or b.get(gi.params()[0][0]) != objp:
+                check.violation(rule, st, 'the first search does not start from the object given', key=key)
+            elif autop is not None and b.get('af_hint', K(True)) != autop:
+                check.violation(rule, st, 'the first search stops at an autoforwards hint %s, not exactly when discovery is on (af_hint=auto): with '
+                                'auto=False a hinted object hides the callable under its __call__'
+                                % ('always' if b.get('af_hint', K(True)) == K(True) else 'under ' + show(b.get('af_hint'))[:30]), key=key,
+                                witness='signature(obj, auto=False) for a callable object that carries a hint but whose __call__ has a forger')
+            else:
+                check.holds(rule, st, 'the first search starts from the object and stops at a hint only when discovery is on', key=key)
+        # (b) paths on which the hint was consulted, gave nothing, and discovery goes on
+        hint_calls = [e for e in p.effects if e.kind == 'call' and str(e.op).endswith('_sigtools__autoforwards_hint')]
+        af = [e for e in p.effects if e.kind == 'call' and str(e.op).endswith(':autoforwards')]
+        if hint_calls and af:
+            key = 'forged_signature|after-hint'
+            subj = af[-1].args[0] if af[-1].args else None
+            st = site_of(fi, af[-1].node)
+            ok = subj is not None and subj[0] == 'C' and subj[1] == gi.key
+            b2 = None
+            if ok:
+                class _E(object):
+                    pass
+                e2 = _E()
+                e2.args, e2.kws = subj[2], subj[3]
+                b2 = _bind_call(gi, e2)
+                ok = b2 is not None and b2.get('af_hint') == K(False)
+            k2 = key + ('|ok' if ok else '|bad')
+            if k2 in seen:
+                continue
+            seen.add(k2)
+            n += 1
+            if ok:
+                check.holds(rule, st, 'after a hint that gave nothing, discovery examines the object found without regard to hints', key=key)
+            else:
+                check.violation(rule, st, 'after a hint that gave nothing, autoforwards() is handed %s: the same hint is asked again and discovery falls '
+                                'back, whatever the function underneath forwards' % show(subj)[:70], key=key,
+                                witness='a modifiers-wrapped method whose hint returns None (source unavailable for the wrapper) over a forwarding function')
+    check.floor(rule, 'subject searches of forged_signature', n, 2)
+
+
+def _bind_call(fi, e):
+    pos, vararg, kwonly, kwarg = fi.params()
+    out = {}
+    for i, a in enumerate(e.args):
+        if i < len(pos):
+            out[pos[i]] = a
+    for k_, v_ in e.kws:
+        out[k_] = v_
+    return out
